@@ -13,7 +13,7 @@ for p in selftest/mutants/*.patch; do
   if ! git -C "$W" apply "/verif/$p" 2>/dev/null; then echo "STALE  $n (patch no longer applies)"; git -C /repo worktree remove --force "$W"; continue; fi
   for prop in $props; do
     out=$(GOVC_REPO="$W" GOVC_HOME=/verif GOVC_NOEVIDENCE=1 /verif/bin/govc check "$prop" 2>&1)
-    if echo "$out" | grep -q "^VIOLATION property=$prop"; then echo "CAUGHT $n $prop ($(echo "$out" | grep -c '^VIOLATION') obligations)"; else echo "MISSED $n $prop"; miss=1; fi
+    if echo "$out" | grep -q "^VIOLATION property=$prop"; then echo "CAUGHT $n $prop ($(echo "$out" | grep -c "^VIOLATION") obligations, $(echo "$out" | grep "^VIOLATION" | grep -vc "no-failing-input-found") replayed)"; else echo "MISSED $n $prop"; miss=1; fi
   done
   git -C /repo worktree remove --force "$W"
 done
